@@ -858,9 +858,9 @@ package geojson
 //@   ensures Kind: isGeometryCollectionK(result) && !old($alloc)[result]
 //@   ensures Inv: CollInv(result.collection)
 //@   ensures Kids: collN(result.collection) == len(geometries) && (forall i int :: (0 <= i && i < len(geometries)) ==> collChild(result.collection, i) == objAt(geometries, i))
-//@   stmt geometrycollection.go:14 use forall i int :: AFrameKid(objAt(geometries, i), g.collection)
-//@   stmt geometrycollection.go:14 assert Fresh: !old($alloc)[g.collection]
-//@   stmt geometrycollection.go:14 assert Kids: forall i int :: (0 <= i && i < len(geometries)) ==> (collChild(g.collection, i) == objAt(geometries, i) && KidInv(objAt(geometries, i)))
+//@   stmt geometrycollection.go:"g.parseInitRectIndex(DefaultParseOptions)" use forall i int :: AFrameKid(objAt(geometries, i), g.collection)
+//@   stmt geometrycollection.go:"g.parseInitRectIndex(DefaultParseOptions)" assert Fresh: !old($alloc)[g.collection]
+//@   stmt geometrycollection.go:"g.parseInitRectIndex(DefaultParseOptions)" assert Kids: forall i int :: (0 <= i && i < len(geometries)) ==> (collChild(g.collection, i) == objAt(geometries, i) && KidInv(objAt(geometries, i)))
 
 //@ func NewFeatureCollection
 //@   props C10 C11
@@ -871,9 +871,9 @@ package geojson
 //@   ensures Kind: isFeatureCollectionK(result) && !old($alloc)[result]
 //@   ensures Inv: CollInv(result.collection)
 //@   ensures Kids: collN(result.collection) == len(features) && (forall i int :: (0 <= i && i < len(features)) ==> collChild(result.collection, i) == objAt(features, i))
-//@   stmt featurecollection.go:14 use forall i int :: AFrameKid(objAt(features, i), g.collection)
-//@   stmt featurecollection.go:14 assert Fresh: !old($alloc)[g.collection]
-//@   stmt featurecollection.go:14 assert Kids: forall i int :: (0 <= i && i < len(features)) ==> (collChild(g.collection, i) == objAt(features, i) && KidInv(objAt(features, i)))
+//@   stmt featurecollection.go:"g.parseInitRectIndex(DefaultParseOptions)" use forall i int :: AFrameKid(objAt(features, i), g.collection)
+//@   stmt featurecollection.go:"g.parseInitRectIndex(DefaultParseOptions)" assert Fresh: !old($alloc)[g.collection]
+//@   stmt featurecollection.go:"g.parseInitRectIndex(DefaultParseOptions)" assert Kids: forall i int :: (0 <= i && i < len(features)) ==> (collChild(g.collection, i) == objAt(features, i) && KidInv(objAt(features, i)))
 
 //@ lemma pointKid(o Object)
 //@   props C10 C08
@@ -891,3 +891,24 @@ package geojson
 //@   loop 0 invariant Kids: collN(g.collection) == $i && (forall j int :: (0 <= j && j < $i) ==> (isPointK(collChild(g.collection, j)) && as(collChild(g.collection, j), *Point).base == geometry.ptAt(points, j)))
 //@   loop 0 assert geometry.ptAt(points, $i) == point
 //@   stmt multipoint.go:"g.parseInitRectIndex(DefaultParseOptions)" use forall j int :: pointKid(collChild(g.collection, j))
+
+// ---------------------------------------------------------------- NewMultiLineString (children built by NewLineString). NewMultiPolygon stays without contract: the same proof needs the children invariant
+// through the opaque PolyInv, and no solver instantiates it across the append (tried: raw slice form, opaque wrappers, a bridge lemma)
+//@ spec func lineAt(ls []*geometry.Line, i int) *geometry.Line opaque { ls[i] }
+//@ lemma lineStringKid(o Object)
+//@   props C10 C08
+//@   requires isLineStringK(o) && geometry.LineInv(lineOf(o))
+//@   ensures KidInv(o) && !isCollObjK(o)
+//@ func NewMultiLineString
+//@   props C10 C11
+//@   arith order
+//@   entry use rootGlobalsInit()
+//@   requires Lines: forall i int :: (0 <= i && i < len(lines)) ==> (lineAt(lines, i) != nil && geometry.LineInv(lineAt(lines, i)))
+//@   ensures Kind: isMultiLineStringK(result) && !old($alloc)[result]
+//@   ensures Inv: CollInv(result.collection)
+//@   ensures Kids: collN(result.collection) == len(lines) && (forall i int :: (0 <= i && i < len(lines)) ==> isLineStringK(collChild(result.collection, i)))
+//@   loop 0 invariant Fresh: g != nil && !old($alloc)[g] && !old($alloc)[g.collection] && g.collection.prect == zeroRect() && g.collection.tree == nil
+//@   loop 0 invariant Frame: forall c *collection :: old($alloc)[c] ==> (c.children == old(c.children) && c.pempty == old(c.pempty) && c.prect == old(c.prect) && c.tree == old(c.tree) && c.extra == old(c.extra))
+//@   loop 0 invariant Kids: collN(g.collection) == $i && (forall j int :: (0 <= j && j < $i) ==> (isLineStringK(collChild(g.collection, j)) && geometry.LineInv(lineOf(collChild(g.collection, j)))))
+//@   loop 0 assert lineAt(lines, $i) == line
+//@   stmt multilinestring.go:"g.parseInitRectIndex(DefaultParseOptions)" use forall j int :: lineStringKid(collChild(g.collection, j))
